@@ -76,11 +76,35 @@ func (m *Mast) loadPersisted(ctx context.Context, l string) (*mastNode, error) {
 	if m.debug {
 		fmt.Printf("loaded node %s->%v\n", l, node)
 	}
+	err = m.checkLoadedNode(&node)
+	if err != nil {
+		return nil, fmt.Errorf("node %s: %w", l, err)
+	}
 	validateNode(ctx, &node, m)
 	if m.nodeCache != nil {
 		m.nodeCache.Add(cacheKey, &node)
 	}
 	return &node, nil
+}
+
+// checkLoadedNode reports, as an error, a freshly decoded node that cannot be
+// part of a well-formed tree under this tree's key order: mismatched key,
+// value and link counts, or keys that are not strictly ascending.
+func (m *Mast) checkLoadedNode(node *mastNode) error {
+	if len(node.Key) != len(node.Value) || len(node.Link) != len(node.Key)+1 {
+		return fmt.Errorf("improperly-formatted node: %d keys, %d values, %d links",
+			len(node.Key), len(node.Value), len(node.Link))
+	}
+	for i := 1; i < len(node.Key); i++ {
+		cmp, err := m.keyOrder(node.Key[i-1], node.Key[i])
+		if err != nil {
+			return fmt.Errorf("key order: %w", err)
+		}
+		if cmp >= 0 {
+			return fmt.Errorf("keys out of order (%v before %v); ensure using same key order function as source", node.Key[i-1], node.Key[i])
+		}
+	}
+	return nil
 }
 
 func unmarshalNode(m *Mast, nodeBytes []byte, l string, node *mastNode) error {
@@ -98,6 +122,9 @@ func unmarshalStringNode(m *Mast, nodeBytes []byte, l string, node *mastNode) er
 	}
 	if len(stringNode.Key) != len(stringNode.Value) {
 		return fmt.Errorf("cannot unmarshal %s: mismatched keys and values", l)
+	}
+	if len(stringNode.Link) != 0 && len(stringNode.Link) != len(stringNode.Key)+1 {
+		return fmt.Errorf("cannot unmarshal %s: mismatched keys and links", l)
 	}
 	*node = mastNode{
 		Node{
